@@ -337,6 +337,12 @@ class Gridder(GeospatialGrid):
         )
 
         total_segment_length = first_segment_length + second_segment_length
+        if total_segment_length == 0:
+            # Repeated point written once with longitude +pi and once with -pi:
+            # both parts have zero length. The lengths are only used as
+            # proportions, so give the whole segment value to the first part
+            # instead of dividing zero by zero.
+            return 1.0, 0.0, 1.0
         return first_segment_length, second_segment_length, total_segment_length
 
     def _dateline_split_first_segment(
